@@ -4,6 +4,8 @@ open Fh Fh.Model
 
 /-! ### op "pipe": cap, then triples (opcode, end, arg)
 
+  K end -     io.Copy(sink, conn) at `end` / B end - bufio.Reader over the conn + WriteTo: read events until one returns an error
+  F end n     io.ReadFull(conn, buf[:n]): read events until n bytes or an error
   S end x     like W, through WriteString (io.StringWriter): the same model event
   W end x     Write at end `end` ('1'|'2') of the payload `pipePayload (x % 256) (x / 256)` (x decimal)
   R end n     Read(p) with len(p) = n (decimal)
@@ -41,9 +43,41 @@ def pipeFinal (s : Pipe.Duplex) : String :=
   "F:w1=" ++ toString s.d12.written.length ++ ",r2=" ++ toString s.d12.readAcc.length ++
   ",w2=" ++ toString s.d21.written.length ++ ",r1=" ++ toString s.d21.readAcc.length
 
+/-- read events of size `n` at end `e` until one returns an error or `want` bytes are collected (`want = none`:
+    until an error).  Every step is an ordinary `read` event of the model; fuel bounds the number of events. -/
+def readUntil (cap : Nat) (e : Pipe.End) (n : Nat) (want : Option Nat) : Nat → Pipe.Duplex → Bytes → Bytes × Pipe.RErr × Pipe.Duplex
+  | 0, s, acc => (acc, .nil, s)
+  | fuel + 1, s, acc =>
+    let size := match want with
+      | some w => min n (w - acc.length)
+      | none => n
+    if size = 0 then (acc, .nil, s)
+    else
+      match Pipe.step cap s (.read e size) with
+      | (.r r, s') =>
+        let acc' := acc ++ r.data
+        if r.err != .nil then (acc', r.err, s')
+        else readUntil cap e n want fuel s' acc'
+      | (_, s') => (acc, .nil, s')
+
+def pipeFuel (s : Pipe.Duplex) (e : Pipe.End) : Nat := (s.rdir e).measure + 3
+
 def runPipe (cap : Nat) : Pipe.Duplex → List Bytes → List String → Option (List String)
   | s, [], acc => some (pipeFinal s :: acc).reverse
   | s, [op] :: e :: x :: rest, acc =>
+    if op == 75 || op == 66 then     -- 'K' io.Copy(dst, conn) / 'B' bufio.Reader + WriteTo: reads until error
+      match endOf? e with
+      | none => none
+      | some en =>
+        let r := readUntil cap en 32768 none (pipeFuel s en) s []
+        runPipe cap r.2.2 rest (("K:" ++ hex r.1 ++ ":" ++ renderRErr r.2.1) :: acc)
+    else if op == 70 then            -- 'F' io.ReadFull(conn, buf[:n])
+      match endOf? e, natOfDec? x with
+      | some en, some n =>
+        let r := readUntil cap en n (some n) (pipeFuel s en + n) s []
+        runPipe cap r.2.2 rest (("F:" ++ hex r.1 ++ ":" ++ renderRErr r.2.1) :: acc)
+      | _, _ => none
+    else
     let ev? : Option Pipe.Ev :=
       match Char.ofNat op.toNat with
       | 'W' => do
